@@ -11,6 +11,8 @@ import sys
 import time
 from pathlib import Path
 
+from .levels import LEVEL
+
 VERIF = Path(__file__).resolve().parent.parent
 REPO = Path(os.environ.get("SMOOTHMATH_REPO", "/repo"))
 LEAN = VERIF / "lean"
@@ -326,7 +328,7 @@ def write_evidence(rep: Report, rule: str, trusted: list[str], assumptions: list
         "property_id": rep.pid,
         "tier": rep.tier,
         "seed": rep.seed,
-        "level": "proof",
+        "level": LEVEL.get(rep.pid, "exploration"),
         "coverage": cov,
         "assumptions": assumptions,
         "wall_s": round(time.time() - rep.t0, 2),
